@@ -1,6 +1,6 @@
 (* C09: the rewrites RFC 5545 declares insignificant, as generators of physical text from logical
    lines: line ending CRLF or LF, any placement of folds (SPACE or TAB) between characters, trailing
-   blank lines; and the case of names.  Definitions only. *)
+   blank lines; and the case of names (whole lines: [name_variant] / [recase] below).  Definitions only. *)
 Require Import Lib.Base Gen.Gen_parser Model.Fold Model.Params Model.Text Model.Contentline.
 
 (* a logical line given as its segments; between two segments a fold [nl ++ [ws]] is placed *)
@@ -35,3 +35,106 @@ Definition is_ws (ws : N) : bool := (ws =? 32) || (ws =? 9).
 
 (* upper-casing is all the parser looks at in a name *)
 Definition same_upper (a b : list N) : bool := str_eqb (upper a) (upper b).
+
+(* ------------------------------------------------------------------ letter case of names, on whole content lines *)
+(* A content line is read left to right by a small machine that knows where it is: in the property
+   name, in a parameter name (between an unquoted ';' and the next unquoted '='), in a parameter
+   value, or in the value (after the first unquoted ':').  On the RAW line (before parts() runs
+   escape_string) a ':' or ';' that directly follows a backslash is not a delimiter: escape_string turns
+   "\:" and "\;" into placeholders before the scan.  The two flags of a [level] say whether that
+   backslash rule applies to ':' and to ';' (raw line: both; text already escaped: neither). *)
+Definition is_letter (c : N) : bool := is_lower c || is_upper c.
+Definition flip_chr (c : N) : N := if is_lower c then c - 32 else if is_upper c then c + 32 else c.
+
+Inductive phase := PName | PKey | PVal | PValue.
+Record lstate := { l_bs : bool; l_inq : bool; l_ph : phase }.
+Definition level := (bool * bool)%type.
+Definition raw_level : level := (true, true).
+Definition esc_level : level := (false, false).
+Definition lstart : lstate := {| l_bs := false; l_inq := false; l_ph := PName |}.
+
+Definition live (esc_rule : bool) (q : lstate) : bool := negb (l_inq q) && negb (esc_rule && l_bs q).
+
+Definition lstep (lv : level) (q : lstate) (c : N) : lstate :=
+  let colon := (c =? 58) && live (fst lv) q in
+  let semi := (c =? 59) && live (snd lv) q in
+  let eq := (c =? 61) && negb (l_inq q) in
+  {| l_bs := c =? 92;
+     l_inq := if c =? 34 then negb (l_inq q) else l_inq q;
+     l_ph := match l_ph q with
+             | PValue => PValue
+             | PName => if colon then PValue else if semi then PKey else PName
+             | PKey => if colon then PValue else if semi then PKey else if eq then PVal else PKey
+             | PVal => if colon then PValue else if semi then PKey else PVal
+             end |}.
+
+(* inside the property name or a parameter name, outside quoted strings *)
+Definition name_here (q : lstate) : bool :=
+  negb (l_inq q) && match l_ph q with PName | PKey => true | _ => false end.
+(* inside the value *)
+Definition value_here (q : lstate) : bool := match l_ph q with PValue => true | _ => false end.
+
+(* the same letter in the other case, or the same character *)
+Definition case_var (c c' : N) : bool := is_letter c && is_letter c' && (upper_chr c =? upper_chr c').
+
+(* [s'] is [s] with some letters at the positions selected by [here] written in the other case *)
+Fixpoint variant_from (here : lstate -> bool) (lv : level) (q : lstate) (s s' : list N) : bool :=
+  match s, s' with
+  | [], [] => true
+  | c :: r, c' :: r' => ((c =? c') || (here q && case_var c c')) && variant_from here lv (lstep lv q c) r r'
+  | _, _ => false
+  end.
+
+(* the function form: flip the case of the letters at the positions [i] with [f i = true] that [here] admits *)
+Fixpoint recase_from (here : lstate -> bool) (lv : level) (q : lstate) (f : nat -> bool) (i : nat) (s : list N) : list N :=
+  match s with
+  | [] => []
+  | c :: r => (if f i && here q then flip_chr c else c) :: recase_from here lv (lstep lv q c) f (S i) r
+  end.
+Fixpoint mask_from (here : lstate -> bool) (lv : level) (q : lstate) (s : list N) : list bool :=
+  match s with
+  | [] => []
+  | c :: r => (here q && is_letter c) :: mask_from here lv (lstep lv q c) r
+  end.
+
+(* property name and parameter names of a raw content line *)
+Definition name_variant (line line' : list N) : bool := variant_from name_here raw_level lstart line line'.
+Definition recase (f : nat -> bool) (line : list N) : list N := recase_from name_here raw_level lstart f 0 line.
+Definition name_positions (line : list N) : list bool := mask_from name_here raw_level lstart line.
+
+(* the value of a raw content line *)
+Definition value_variant (line line' : list N) : bool := variant_from value_here raw_level lstart line line'.
+Definition recase_value (f : nat -> bool) (line : list N) : list N := recase_from value_here raw_level lstart f 0 line.
+
+(* a BEGIN / END line (any letter case) without '%': its value is a component name *)
+Definition begin_end_line (line : list N) : bool :=
+  no_chr 37 line &&
+  match parts line with
+  | Ok (n, _, _) => str_eqb (upper n) (s2l "BEGIN") || str_eqb (upper n) (s2l "END")
+  | _ => false
+  end.
+
+(* what parts() makes of two lines that differ in the case of names only *)
+Definition same_parts (r r' : res (list N * params * list N)) : Prop :=
+  match r, r' with
+  | Ok (n, ps, v), Ok (n', ps', v') => upper n = upper n' /\ ps = ps' /\ v = v'
+  | ValueErr, ValueErr => True
+  | Unsup, Unsup => True
+  | Escape k, Escape k' => k = k'
+  | _, _ => False
+  end.
+
+(* a content line rewritten in a way RFC 5545 declares insignificant for letter case: names in any case,
+   and on a BEGIN / END line the component name as well *)
+Definition line_variant (l l' : list N) : Prop :=
+  exists m, name_variant l m = true /\ (m = l' \/ (begin_end_line m = true /\ value_variant m l' = true)).
+Definition recase_line (f g : nat -> bool) (l : list N) : list N :=
+  let m := recase f l in if begin_end_line m then recase_value g m else m.
+
+(* every line of a list of logical lines rewritten, line [i] with the selections [f i] (names) and [g i]
+   (component name of a BEGIN / END line) *)
+Fixpoint recase_lines (f g : nat -> nat -> bool) (i : nat) (ls : list (list N)) : list (list N) :=
+  match ls with
+  | [] => []
+  | l :: r => recase_line (f i) (g i) l :: recase_lines f g (S i) r
+  end.
